@@ -389,6 +389,9 @@ fn hist_candidates(h: &HistScenario) -> Vec<HistScenario> {
     if h.matrix_order != 0 {
         out.push(HistScenario { matrix_order: 0, ..h.clone() });
     }
+    if h.edge_forms.iter().any(|&f| f != 0) {
+        out.push(HistScenario { edge_forms: vec![], ..h.clone() });
+    }
     if h.elem != "i32" {
         out.push(HistScenario { elem: "i32".into(), ..h.clone() });
     }
